@@ -57,6 +57,7 @@ type Program struct {
 	disabledAuto   map[string]bool
 	errHandled     map[string]map[string]string
 	extraFrameHeap map[string]bool
+	framelessHand  map[string]bool // functions in the read-only cone whose hand-written contract states no frame (C08 reports them)
 	mu             sync.Mutex
 	cmu            sync.RWMutex
 	assumptions    map[string]bool
